@@ -279,6 +279,8 @@ def generate(prop, rng, tier):
                           "SD": [rng.choice([100.0, 250.0, 320.0]) for _ in range(n_el)],
                           "k_2": [rng.choice([float("inf"), 9.0, 13.0, 9.5]) for _ in range(n_el)],
                           "k1_int": rng.random() < 0.3,
+                          "TN": rng.choice([1.0, 1.0, 4.0, 12.0]), "TS": rng.choice([1.0, 1.0, 1.25]),
+                          "native_fp": rng.choice([0.5, 0.5, 0.1]), "fp": rng.choice([0.5, 0.5, 0.1, 0.9, 0.025]),
                           "scenarios": rng.sample(["s1", "s2", "s3", "s4"], n_sc),
                           "loads": [rng.choice([80.0, 120.0, 250.0, 300.0, 500.0]) for _ in range(n_sc)],
                           "calc": rng.choice(["cycles", "cycles", "load"]),
@@ -807,15 +809,21 @@ def _wc_step(st, k, out, log):
     k1 = [float(x) for x in st["k_1"]]
     if st.get("k1_int") and all(x == int(x) for x in k1):
         k1 = [int(x) for x in k1]            # integer slopes are as valid as float ones
+    TN, TS = float(st.get("TN", 1.0)), float(st.get("TS", 1.0))
+    native_fp, fp = float(st.get("native_fp", 0.5)), float(st.get("fp", 0.5))
     wc = pd.DataFrame({"k_1": k1, "ND": st["ND"], "SD": st["SD"], "k_2": [float(x) for x in st["k_2"]],
-                       "TN": 1.0, "TS": 1.0, "failure_probability": 0.5},
+                       "TN": TN, "TS": TS, "failure_probability": native_fp},
                       index=pd.Index(el, name=ename))
     calc = st.get("calc", "cycles")
     given = st["loads"] if calc == "cycles" else st["cycles"]
     load = pd.Series([float(x) for x in given], index=pd.Index(list(st["scenarios"]), name=st["load_level_name"]), name="load")
     wc_snap, load_snap = snapshot(wc), snapshot(load)
     try:
-        cyc = wc.woehler.cycles(load) if calc == "cycles" else wc.woehler.load(load)
+        if fp == 0.5 and native_fp == 0.5 and st.get("fp") is None:
+            cyc = wc.woehler.cycles(load) if calc == "cycles" else wc.woehler.load(load)
+        else:
+            cyc = wc.woehler.cycles(load, fp) if calc == "cycles" else wc.woehler.load(load, fp)
+            out.count("op:derived_with_failure_probability")
     except Exception as e:   # noqa
         out.violate("exception", "derived:cycles", {"step": k, "type": type(e).__name__, "msg": str(e)[:200]})
         return False
@@ -836,6 +844,15 @@ def _wc_step(st, k, out, log):
         seen.add((e, s))
         ie, is_ = el.index(e), list(st["scenarios"]).index(s)
         SD, ND = float(st["SD"][ie]), float(st["ND"][ie])
+        if fp != native_fp:
+            # scatter semantics (documented): N_90/N_10 = TN, SD_90/SD_10 = TS, log-normal; shifting the
+            # endurance limit moves the knee along the k_1 line
+            from scipy.stats import norm
+            z = norm.ppf(native_fp) - norm.ppf(fp)
+            SD_t = SD / 10 ** (z * math.log10(TS) / 2.5631031311)
+            ND_t = ND / 10 ** (z * math.log10(TN) / 2.5631031311)
+            ND_t *= (SD_t / SD) ** (-float(st["k_1"][ie]))
+            SD, ND = SD_t, ND_t
         if calc == "cycles":
             L = float(st["loads"][is_])
             kk = float(st["k_1"][ie]) if not L < SD else float(st["k_2"][ie])
@@ -845,7 +862,7 @@ def _wc_step(st, k, out, log):
             kk = float(st["k_1"][ie]) if not N > ND else float(st["k_2"][ie])
             want = SD * (N / ND) ** (-1.0 / kk) if math.isfinite(kk) else SD
         got = float(v[0]) if v[0] != "nan" else float("nan")
-        ok = (math.isinf(want) and got == want) or (math.isfinite(want) and abs(got - want) <= 1e-12 * abs(want))
+        ok = (math.isinf(want) and got == want) or (math.isfinite(want) and abs(got - want) <= 1e-10 * abs(want))
         if not ok:
             out.violate("B4-derived-calculation", "cycles", {"step": k, "element": e, "scenario": s, "got": got, "want": want})
             return False
